@@ -19,6 +19,7 @@ import (
 	"sort"
 	"strings"
 	"testing"
+	"time"
 
 	"github.com/goplus/xgo/x/fakenet"
 	"github.com/goplus/xgo/x/jsonrpc2"
@@ -102,6 +103,11 @@ type c39run struct {
 	aClosing  simrt.Event // set when Close is invoked on A
 	earlyShutdown int     // >0: with a second client, the server is shut down after that many yields (racing with its Dial)
 	eagerBind int         // 1: A's Binder spawns a goroutine that calls at once; 2: and one that closes
+	idle      int         // >0: the server listens through NewIdleListener with that timeout (simulated milliseconds)
+	bindNext  int         // index of the endpoint record for the connection the listener handed out last
+	lateDials int         // idle configuration: further clients that dial, call and close one after the other
+	lateGo    simrt.Event // set when A has closed (or the settle phase begins): the late clients start
+	acceptErr int         // >0: after that many yields the listener's pending or next Accept fails once with an ordinary error (EMFILE-like)
 }
 
 type msgRec struct {
@@ -302,6 +308,22 @@ func (c39) NewRun(plan *simrt.Source, job *harn.Job) harn.Run {
 	if plan.Chance(150) {
 		r.eagerBind = 1 + plan.Draw(2)
 	}
+	if plan.Chance(200) {
+		// the idle-timeout listener of serve.go in front of the server: its timer is
+		// a simulated one, so the timeout may expire at any scheduling step
+		r.idle = []int{1, 50, 60000}[plan.Draw(3)]
+		r.strat.TimerP = []int{0, 5, 30, 150}[plan.Draw(4)]
+		r.lateDials = plan.Draw(3)
+	}
+	if plan.Chance(80) || (r.idle > 0 && plan.Chance(300)) {
+		r.acceptErr = 1 + plan.Draw(60)
+	}
+	if v, ok := job.Knobs["idle"]; ok {
+		r.idle = v
+		if v > 0 && r.strat.TimerP == 0 {
+			r.strat.TimerP = 60
+		}
+	}
 	// raw-peer configuration: only A is a real connection
 	r.raw = plan.Chance(200)
 	if v, ok := job.Knobs["raw"]; ok {
@@ -309,6 +331,7 @@ func (c39) NewRun(plan *simrt.Source, job *harn.Job) harn.Run {
 	}
 	if r.raw {
 		r.second = 0
+		r.idle, r.lateDials, r.strat.TimerP, r.acceptErr = 0, 0, 0, 0
 		var keep []taskPlan
 		for _, t := range r.tasks {
 			if t.Ep == 0 {
@@ -328,6 +351,12 @@ func (c39) NewRun(plan *simrt.Source, job *harn.Job) harn.Run {
 	}
 	if r.eagerBind > 0 {
 		r.net.Desc += fmt.Sprintf(" + A's Binder uses the connection from spawned goroutines during set-up (%d)", r.eagerBind)
+	}
+	if r.idle > 0 {
+		r.net.Desc += fmt.Sprintf(" + server behind NewIdleListener(%dms), early-expiry rate %d/1000, %d late clients", r.idle, r.strat.TimerP, r.lateDials)
+	}
+	if r.acceptErr > 0 {
+		r.net.Desc += fmt.Sprintf(" + Accept fails once with an ordinary error after %d yields", r.acceptErr)
 	}
 	if r.second > 0 {
 		r.net.Desc += fmt.Sprintf(" + second client making %d calls on its own connection to the same server (server shut down after %d yields)", r.second, r.earlyShutdown)
@@ -393,6 +422,8 @@ type listener struct {
 	fakeB   []net.Conn
 	next    int // index of the endpoint pair used by the next Dial (0: A/B, 2: C/D)
 	closed  bool
+	failNow bool // the pending or next Accept returns an ordinary error
+	dead    bool // an Accept failed: the server has stopped accepting although the listener is not closed
 	w       simrt.WaitList
 }
 
@@ -400,9 +431,22 @@ func (l *listener) Accept(ctx context.Context) (io.ReadWriteCloser, error) {
 	s := simrt.Active()
 	simrt.Yield("listener.Accept")
 	for {
+		if l.failNow && !l.closed {
+			// an ordinary failure of accept(2): the listener stays open, but a Server
+			// gives up accepting; later dials are refused in this model (in reality
+			// they would sit in the backlog of a listener nobody accepts from)
+			l.failNow, l.dead = false, true
+			s.Fault("accept-error")
+			return nil, errors.New("simnet: accept: too many open files")
+		}
 		if len(l.pending) > 0 {
 			e := l.pending[0]
 			l.pending = l.pending[1:]
+			for i, ep := range l.r.eps {
+				if ep.end == e {
+					l.r.bindNext = i
+				}
+			}
 			if len(l.fakeB) > 0 {
 				c := l.fakeB[0]
 				l.fakeB = l.fakeB[1:]
@@ -424,11 +468,24 @@ func (l *listener) Close() error {
 	return nil
 }
 
+// dropBacklog resets connections that were dialled but never accepted once the
+// server has stopped accepting for good (what closing a listening socket does
+// to its accept queue; the repository's own pipe listener has no backlog at
+// all). Without it such a client would talk to nobody forever, which no real
+// transport does.
+func (l *listener) dropBacklog() {
+	for _, e := range l.pending {
+		e.Close()
+		l.r.sim.Probe("backlog-connection-reset")
+	}
+	l.pending, l.fakeB = nil, nil
+}
+
 func (l *listener) Dialer() jsonrpc2.Dialer { return l }
 
 func (l *listener) Dial(ctx context.Context) (io.ReadWriteCloser, error) {
 	simrt.Yield("listener.Dial")
-	if l.closed {
+	if l.closed || l.dead {
 		return nil, errors.New("simnet: connection refused (listener closed)")
 	}
 	i := l.next
@@ -794,7 +851,8 @@ func (r *c39run) checkAwait(cr *callRec, aw *awaitRec) {
 	// Any error satisfies the statement. The narrow strengthening: with no
 	// fault configured, no cancellation, no Close invoked anywhere before the
 	// Await returned, a call whose handler succeeds must succeed.
-	if r.net.FaultFree && aw.beforeAnyClose && !cr.cancelled && !cr.inner && expected(cr.method, cr.nonce) >= 0 && cr.method != "slow" && cr.method != "reenter" {
+	turnedAway := (r.idle > 0 || r.acceptErr > 0) && r.eps[cr.ep.idx^1].conn == nil // the idle listener closed this connection instead of serving it
+	if r.net.FaultFree && aw.beforeAnyClose && !turnedAway && !cr.cancelled && !cr.inner && expected(cr.method, cr.nonce) >= 0 && cr.method != "slow" && cr.method != "reenter" {
 		r.fail("oracle:spurious-error", fmt.Sprintf("%s call %s(nonce %d) id %s failed with %q although nothing was cancelled, closed or broken", cr.ep.name, cr.method, cr.nonce, cr.id, aw.err), "call failed without fault, cancellation or Close")
 	}
 }
@@ -896,6 +954,9 @@ func (r *c39run) doWait(ep *endpoint) {
 // closeReturned is the oracle evaluated at the instant Close/Wait returns.
 func (r *c39run) closeReturned(ep *endpoint, what string) {
 	ep.closeRet = true
+	if ep.idx == 0 {
+		r.lateGo.Set()
+	}
 	if ep.handling > 0 {
 		r.fail("oracle:close-did-not-wait", fmt.Sprintf("%s.%s returned while a handler is still running", ep.name, what), what+" returned while a handler is running")
 	}
@@ -918,22 +979,53 @@ func (r *c39run) Body(s *simrt.Sim) {
 			r.eps = append(r.eps, &endpoint{r: r, idx: i, name: n, asyncOpen: map[string]bool{}})
 		}
 	}
+	for k := 0; k < r.lateDials; k++ {
+		i := len(r.eps)
+		r.eps = append(r.eps, &endpoint{r: r, idx: i, name: fmt.Sprintf("L%d", k), asyncOpen: map[string]bool{}},
+			&endpoint{r: r, idx: i + 1, name: fmt.Sprintf("L%ds", k), asyncOpen: map[string]bool{}})
+	}
 	if r.raw {
 		r.srvWaited = true
 		r.startRaw()
 	} else {
 		r.lis = &listener{r: r}
-		r.server = jsonrpc2.NewServer(context.Background(), r.lis, serverBinder{r})
-		if _, err := jsonrpc2Dial(r.lis.Dialer(), r.eps[0]); err != nil {
+		var lis jsonrpc2.Listener = r.lis
+		if r.idle > 0 {
+			lis = jsonrpc2.NewIdleListener(time.Duration(r.idle)*time.Millisecond, r.lis)
+		}
+		r.server = jsonrpc2.NewServer(context.Background(), lis, serverBinder{r})
+		if _, err := jsonrpc2Dial(lis.Dialer(), r.eps[0]); err != nil {
+			if r.idle > 0 {
+				// the idle timeout expired before the first client dialled
+				r.sim.Probe("idle:first-dial-refused")
+				return
+			}
 			r.fail("harness", "Dial failed: "+err.Error(), "Dial")
 			return
 		}
-		// wait until the server side has bound its connection
-		for r.eps[1].conn == nil {
+		// wait until the server side has bound its connection (behind the idle
+		// listener the connection may instead have been turned away)
+		for r.eps[1].conn == nil && !((r.idle > 0 || r.acceptErr > 0) && (r.lis.closed || r.lis.dead || r.eps[0].end.Broken())) {
 			simrt.Yield("wait-for-accept")
+		}
+		if r.eps[1].conn == nil {
+			r.sim.Probe("idle:first-connection-turned-away")
 		}
 	}
 	r.tasksAll += len(r.tasks)
+	if r.acceptErr > 0 && r.lis != nil {
+		simrt.Go("accept-error-injector", func() {
+			for k := 0; k < r.acceptErr; k++ {
+				simrt.Yield("accept-error-delay")
+			}
+			r.lis.failNow = true
+			r.lis.w.WakeAll(r.sim)
+		})
+	}
+	if r.lateDials > 0 {
+		r.tasksAll++
+		simrt.Go("late-clients", r.lateClients)
+	}
 	if r.second > 0 {
 		r.tasksAll++
 		simrt.Go("C.task", r.secondClient)
@@ -955,6 +1047,9 @@ func (r *c39run) Body(s *simrt.Sim) {
 		name := fmt.Sprintf("%s.task%d", ep.name, i)
 		simrt.Go(name, func() {
 			for _, o := range t.Ops {
+				if ep.conn == nil {
+					break // (idle configuration) this side's connection never came to be
+				}
 				switch o.Kind {
 				case "call":
 					r.doCall(ep, name, o)
@@ -988,7 +1083,7 @@ func (r *c39run) Body(s *simrt.Sim) {
 type serverBinder struct{ r *c39run }
 
 func (b serverBinder) Bind(ctx context.Context, c *jsonrpc2.Connection) jsonrpc2.ConnectionOptions {
-	ep := b.r.eps[1+2*b.r.accepted]
+	ep := b.r.eps[b.r.bindNext]
 	b.r.accepted++
 	return ep.Bind(ctx, c)
 }
@@ -1014,6 +1109,28 @@ func (r *c39run) secondClient() {
 		r.doClose(c)
 	}
 	r.tasksDone++
+}
+
+// lateClients (idle configuration): further clients, one after the other, each
+// dials after the previous one has closed — so the listener goes idle, re-arms
+// its timer and a Dial/Accept may race with the timer's expiry — makes a call
+// and closes.
+func (r *c39run) lateClients() {
+	defer func() { r.tasksDone++ }()
+	// the first late client waits until A has closed (the listener is idle then)
+	r.lateGo.Wait("late-client-wait")
+	for k := 0; k < r.lateDials; k++ {
+		i := len(r.eps) - 2*(r.lateDials-k)
+		c := r.eps[i]
+		r.lis.next = i
+		if _, err := jsonrpc2Dial(r.lis.Dialer(), c); err != nil {
+			r.sim.Probe("idle:late-dial-refused")
+			return
+		}
+		r.sim.Probe("idle:late-connection")
+		r.doCall(c, c.name+".task", opPlan{Kind: "call", Method: []string{"echo", "peek", "async"}[k%3], Awaiters: 1})
+		r.doClose(c)
+	}
 }
 
 func jsonrpc2Dial(d jsonrpc2.Dialer, b jsonrpc2.Binder) (*jsonrpc2.Connection, error) {
@@ -1089,11 +1206,18 @@ func (r *c39run) StateSig() uint64 {
 }
 
 func (r *c39run) OnQuiesce(s *simrt.Sim, _ int) bool {
+	if r.lis != nil && (r.lis.closed || r.lis.dead) && len(r.lis.pending) > 0 {
+		// nothing moves any more and the listener is closed: whoever is still in
+		// its backlog is never going to be accepted
+		simrt.Go("listener-backlog-reset", r.lis.dropBacklog)
+		return true
+	}
 	r.phase++
 	switch r.phase {
 	case 1:
 		// Faults stop: heal stalls, release blocked handlers, close everything.
 		r.settle = true
+		r.lateGo.Set()
 		if r.raw {
 			// raw configuration: A starts closing while the peer's requests are
 			// still open and the peer is still talking; they are released in the
